@@ -290,9 +290,21 @@ def rule_handover(ctx):
     w = q.calls_resolving_to(ctx, sf, ctx.func('db', 'DB.write_utxo_state'))
     okf = len(a) == 1 and norm(a[0].value) == sf.params[1] and len(w) == 1 and a[0].lineno < q.stmt(w[0]).lineno \
         and norm(w[0].args[0]) == 'self.utxo_db'
+    # ... on every path, whatever the old value: the one caller uses it to LOWER the UTXO DB's count to the history's reset one
+    from .. import paths as _P
+    store, write = a[0] if a else None, (q.stmt(w[0]) if w else None)
+    skipping = [' & '.join(p_.cond_texts())[:100] or p_.exit for p_ in _P.paths(sf.node.body)
+                if p_.exit in ('return', 'fall') and not (store is not None and p_.passes(store) and write is not None and p_.passes(write))]
+    # (skipping the write when the count is already the stored one changes nothing)
+    skipping = [t_ for t_, p_ in zip(skipping, [p_ for p_ in _P.paths(sf.node.body) if p_.exit in ('return', 'fall') and not (
+        store is not None and p_.passes(store) and write is not None and p_.passes(write))])
+                if _P.decided(ctx, sf, p_, f'{sf.params[1]} == self.state.flush_count') is not True]
+    okf = okf and not skipping
     ctx.check(okf, 'C14.HANDOVER', ctx.key(sf, None, 'persists the count'),
               'set_flush_count stores the count in the state and writes the UTXO state record',
-              'set_flush_count does not persist the count in the UTXO state record', loc=ctx.loc(sf, sf.node))
+              'set_flush_count does not persist the count in the UTXO state record on every path' +
+              (f' (skipped when {skipping[:2]}: a count that is lowered after compaction stays stale and clear_excess no longer spots '
+               f'uncommitted history)' if skipping else ''), loc=ctx.loc(sf, sf.node))
     return n + 1
 
 
